@@ -501,6 +501,53 @@ fn witness_f13_ingest() -> Option<Failure> {
     None
 }
 
+/// The journal rotation of the *worker* path (`worker_tick`'s Flush branch rotates the journal once it is
+/// past 64 MB; the `verif_rotate_journal` hook used by the random cases is a copy of that logic, so a change to
+/// the original would go unnoticed there).  66 MiB are written, the memtable is sealed, a writer is held inside
+/// its journal critical section while the real Flush tick runs on another thread (it rotates the journal,
+/// flushes, runs journal maintenance); the directory is then copied as a crash image and reopened.
+fn real_rotation_probe() -> Option<Failure> {
+    use std::sync::atomic::Ordering;
+    let scratch = Scratch::new("realrot");
+    let dir = scratch.join("db");
+    let db = Database::builder(&dir).worker_threads_unchecked(0).journal_compression(fjall::CompressionType::None).open().ok()?;
+    let a = db.keyspace("a", || KeyspaceCreateOptions::default().max_memtable_size(1 << 30)).ok()?;
+    let big = Rng::new(77).bytes(1 << 20);
+    for i in 0..66u32 { a.insert(format!("big-{i:03}"), &big[..]).ok()?; }
+    if !a.rotate_memtable().ok()? { return None; }
+    if fjall::verif::queued_worker_messages(&db) != 1 { return None; }
+    RACE_PARKED.store(false, Ordering::Release); RACE_GO.store(false, Ordering::Release);
+    let a2 = a.clone();
+    let wt = std::thread::spawn(move || { RACE_WRITER.with(|w| w.set(true)); a2.insert("late", "acknowledged") });
+    let t0 = std::time::Instant::now();
+    while !RACE_PARKED.load(Ordering::Acquire) && t0.elapsed() < std::time::Duration::from_secs(30) { std::thread::sleep(std::time::Duration::from_millis(1)); }
+    if !RACE_PARKED.load(Ordering::Acquire) { RACE_GO.store(true, Ordering::Release); let _ = wt.join(); return Some(Failure { kind: "harness", detail: "real-rotation probe: writer did not reach write.locked".into(), witness: None }); }
+    let db2 = db.clone();
+    let tick = std::thread::spawn(move || fjall::verif::verif_worker_step(&db2));
+    std::thread::sleep(std::time::Duration::from_millis(300)); // the tick has taken the flush task and waits for the journal lock
+    let early = tick.is_finished();
+    RACE_GO.store(true, Ordering::Release);
+    let wr = wt.join();
+    let tr = tick.join();
+    if early { return Some(Failure { kind: "impl-vs-oracle", detail: "the Flush tick (journal past 64 MB: rotation) completed while a writer was inside its journal critical section".into(), witness: None }); }
+    if !matches!(wr, Ok(Ok(()))) || !matches!(tr, Ok(Ok(Some("flush")))) { return Some(Failure { kind: "harness", detail: format!("real-rotation probe: writer {wr:?}, tick {tr:?}"), witness: None }); }
+    let journals = db.journal_count();
+    let img = scratch.join("crash");
+    copy_dir_sparse(&dir, &img);
+    let got = (|| -> Result<(bool, usize), String> {
+        let d = open(&img).map_err(|e| format!("{e:?}"))?;
+        let k = d.keyspace("a", KeyspaceCreateOptions::default).map_err(|e| format!("{e:?}"))?;
+        let late = k.get("late").map_err(|e| format!("{e:?}"))?.is_some();
+        let mut bigs = 0; for i in 0..66u32 { if k.get(format!("big-{i:03}")).map_err(|e| format!("{e:?}"))?.is_some() { bigs += 1; } }
+        Ok((late, bigs))
+    })();
+    match got {
+        Ok((true, 66)) => None,
+        Ok((late, bigs)) => Some(Failure { kind: "impl-vs-oracle", detail: format!("worker-path journal rotation (journal past 64 MB) racing with a writer inside its critical section: after the Flush tick ({journals} journal file(s) left) a crash image recovers late={late} and {bigs}/66 of the big values - the sealed journal was reclaimed although the racing write it contains was only in a memtable"), witness: None }),
+        Err(e) => Some(Failure { kind: "impl-vs-oracle", detail: format!("worker-path journal rotation probe: crash image does not open: {e}"), witness: None }),
+    }
+}
+
 fn main() {
     fjall::verif::pause::set(Some(std::sync::Arc::new(race_hook)));
     let args: Vec<String> = std::env::args().collect();
@@ -526,6 +573,7 @@ fn main() {
     let mut hist = BTreeMap::new();
     let mut cases = 0;
     if replay.is_none() && mode == "c04" { if let Some(f) = witness_f13_ingest() { all.push((0, f)); } }
+    if replay.is_none() && (mode == "c10" || mode == "c02") { if let Some(f) = real_rotation_probe() { all.push((0, f)); } *hist.entry("worker-path-journal-rotation-probe".to_string()).or_insert(0) += 1; }
     for cs in seeds {
         let res = std::panic::catch_unwind(std::panic::AssertUnwindSafe(|| run_case(cs, &mut lean, &mut hist, &mut samples, thorough, &mode)));
         cases += 1;
